@@ -333,6 +333,89 @@ theorem synth_only_when_allowed (c : Cfg) (q : Query) (down : Option Down) (a : 
       exact ⟨m, rfl, d.1, d.2.2.1, d.2.2.2.1, d.2.2.2.2.1, d.2.2.2.2.2.1, d.2.2.2.2.2.2.1, d.2.2.2.2.2.2.2,
         s.1, s.2.1, rfl⟩
 
+/-- the converse of `dispatch_trySynth`: past every pass-through condition the
+secondary lookup is reached. -/
+theorem dispatch_trySynth_of (c : Cfg) (q : Query) (m : Down)
+    (htc : m.tc = false) (hq : m.hasQ = true) (h3 : m.rcode ≠ 3) (hd : isDNSSECFailure m = false)
+    (hc : isCachedFailureResponse m = false) (ha : m.mark ≠ .attempt) (ho : m.mark ≠ .other)
+    (hw : ¬ (m.rcode = 2 ∧ q.workExhausted = true))
+    (hn : m.rcode = 0 → ∀ r ∈ m.ans, r.kind = '6' → c.shouldExcludeAAAA r.ip = true) :
+    dispatch c q m = .trySynth := by
+  have hmk : (m.mark == Mark.attempt || m.mark == Mark.other) = false := by
+    cases hm : m.mark <;> simp_all
+  have hwf : (m.rcode == 2 && q.workExhausted) = false := by
+    cases hx : q.workExhausted
+    · simp
+    · by_cases h2 : m.rcode = 2
+      · exact absurd ⟨h2, hx⟩ hw
+      · simp [h2]
+  have h3' : (m.rcode == 3) = false := by simpa using h3
+  unfold dispatch
+  simp only [htc, hq, Bool.not_true, Bool.or_self, Bool.false_eq_true, if_false, h3', hd, hc, hmk, hwf]
+  by_cases h0 : m.rcode = 0
+  · have hall := hn h0
+    have heq : ((m.ans.filter (·.kind == '6')).filter fun r => c.shouldExcludeAAAA r.ip).length
+        = (m.ans.filter (·.kind == '6')).length := by
+      apply List.length_filter_eq_length_iff.mpr
+      intro r hr
+      have := List.mem_filter.mp hr
+      exact hall r this.1 (by simpa using this.2)
+    simp only [h0, beq_self_eq_true, if_true, filterUpstreamAAAA, heq, Nat.sub_self]
+    simp
+  · simp [h0]
+
+/-- **…and synthesis does happen when allowed** (the converse of
+`synth_only_when_allowed`): with every request gate open, a downstream reply
+past every pass-through condition, and an error-free NOERROR A response that
+holds at least one A record whose address is not excluded under some
+configured prefix, the reply IS a synthesised one. Together the two theorems
+characterise synthesis exactly; dropping usable A records (for instance
+because their owner differs from the alias target only in letter case — names
+are opaque to the decision) is not a behaviour of the model. -/
+theorem synthesis_when_allowed (c : Cfg) (q : Query) (m : Down) (a : AResp)
+    (hg : gate c q = .wrap)
+    (htc : m.tc = false) (hq : m.hasQ = true) (h3 : m.rcode ≠ 3) (hd : isDNSSECFailure m = false)
+    (hc : isCachedFailureResponse m = false) (ha : m.mark ≠ .attempt) (ho : m.mark ≠ .other)
+    (hw : ¬ (m.rcode = 2 ∧ q.workExhausted = true))
+    (hn : m.rcode = 0 → ∀ r ∈ m.ans, r.kind = '6' → c.shouldExcludeAAAA r.ip = true)
+    (he : a.err = .none) (hr : a.rcode = 0)
+    (hx : ∃ p ∈ c.prefixes, ∃ x ∈ a.ans, ∃ v4, x.kind = '4' ∧ to4 x.ip = some v4 ∧
+      c.shouldExcludeAOnPrefix v4 p = false) :
+    (serve c q (some m) a).kind = .synth := by
+  have hdisp := dispatch_trySynth_of c q m htc hq h3 hd hc ha ho hw hn
+  unfold serve
+  simp only [hg]
+  rw [writeMsg_trySynth c q m a hdisp]
+  obtain ⟨p, hp, x, hxm, v4, hk, h4, hex⟩ := hx
+  have hxa : x ∈ addrsOf a.ans := List.mem_filter.mpr ⟨hxm, by simp [hk]⟩
+  have hne : (addrsOf a.ans).isEmpty = false := by
+    cases hl : addrsOf a.ans with
+    | nil => rw [hl] at hxa; simp at hxa
+    | cons _ _ => rfl
+  unfold synthesise
+  simp only [he, hr, bne_self_eq_false, Bool.false_eq_true, if_false, hne]
+  have hmem := (mem_synthAAAA c (addrsOf a.ans)
+    (synthTTL (negativeAAAATTL (origOf c m).1.soas) ((addrsOf a.ans).map (·.ttl))) _).mpr
+    ⟨p, hp, x, hxa, v4, h4, hex, rfl⟩
+  have hs : (synthAAAA c (addrsOf a.ans)
+      (synthTTL (negativeAAAATTL (origOf c m).1.soas) ((addrsOf a.ans).map (·.ttl)))).isEmpty = false := by
+    cases hl : synthAAAA c (addrsOf a.ans)
+        (synthTTL (negativeAAAATTL (origOf c m).1.soas) ((addrsOf a.ans).map (·.ttl))) with
+    | nil => rw [hl] at hmem; simp at hmem
+    | cons _ _ => rfl
+  simp only [hs, Bool.false_eq_true, if_false]
+
+-- alias target stored as "Host.Example.NET." (token 11), A RRset owned by it: still synthesised
+example :
+    let c : Cfg := { prefixes := [⟨⟨wkpIP, 96, true⟩, true⟩], exA := defaultExcludeAv4, exAAAA := defaultExcludeAAAA }
+    let q : Query := { client := [203, 0, 113, 5], internal := false, rd := true, cd := false, qclass := 1,
+                       qtype := 28, qname := "host.example.net.".toList, workExhausted := false }
+    let m : Down := { rcode := 0, ad := false, tc := false, opt := true, hasQ := true, edes := [], mark := .none,
+                      ans := [], soas := [(60, 60)] }
+    let a : AResp := { err := .none, rcode := 0, ans := [{ kind := 'c', ttl := 60, owner := "0", target := "1" },
+                                                         { kind := '4', ttl := 60, owner := "11", ip := [8, 8, 8, 8] }] }
+    (serve c q (some m) a).kind = .synth := by decide
+
 /-! ## what is synthesised -/
 
 /-- **Synthesised records are exactly RFC 6052 embeddings of the A records.**
@@ -428,6 +511,76 @@ theorem no_new_aaaa_unless_synth (c : Cfg) (q : Query) (down : Option Down) (a :
     · rw [hw] at hr
       simp only [filterUpstreamAAAA] at hr
       exact (List.mem_filter.mp hr).1
+
+/-- **A usable native AAAA is never replaced.** For an AAAA question, a
+NOERROR downstream reply holding an AAAA record outside every
+`exclude_aaaa_networks` range (in particular any AAAA when that list is
+explicitly empty) is answered without a secondary lookup, is not synthesised,
+and keeps that record. -/
+theorem native_aaaa_kept (c : Cfg) (q : Query) (m : Down) (a : AResp) (r : RR)
+    (hq28 : q.qtype = 28) (h0 : m.rcode = 0) (hr : r ∈ m.ans) (h6 : r.kind = '6')
+    (hex : c.shouldExcludeAAAA r.ip = false) :
+    (serve c q (some m) a).kind ≠ .synth ∧ (serve c q (some m) a).aq = 0 ∧ r ∈ (serve c q (some m) a).ans := by
+  have hns : (serve c q (some m) a).kind ≠ .synth := by
+    intro h
+    obtain ⟨_, _, _, _, _, _, _, m', hm', _, _, _, _, _, _, hnat, _⟩ := synth_only_when_allowed c q (some m) a h
+    cases hm'
+    have := hnat h0 r hr h6
+    rw [hex] at this; cases this
+  refine ⟨hns, ?_⟩
+  rcases serve_cases c q (some m) a with hs | ⟨m', hm', hs⟩ | ⟨hg, _, _, _, _, _⟩ | ⟨_, m', hm', hs⟩
+  · exfalso
+    -- something is always written when the downstream wrote
+    unfold serve at hs
+    cases hg : gate c q <;> simp only [hg] at hs
+    · simp [passReply] at hs
+    · unfold gate at hg
+      by_cases h2 : (q.twoQ && !q.wire) = true <;> simp [h2, hq28] at hg
+      repeat' split at hg
+      all_goals simp at hg
+    · rcases writeMsg_cases c q m a with ⟨hd, hw⟩ | hw | hw | hw
+      · exact absurd (by simpa using (dispatch_trySynth c q m hd).2.2.2.2.2.2.2 h0 r hr h6) (by simp [hex])
+      all_goals (rw [hw] at hs; simp [passReply] at hs)
+  · cases hm'
+    rw [hs]; exact ⟨rfl, by simpa [passReply] using hr⟩
+  · exfalso
+    unfold gate at hg
+    by_cases h2 : (q.twoQ && !q.wire) = true <;> simp [h2, hq28] at hg
+    repeat' split at hg
+    all_goals simp at hg
+  · cases hm'
+    rw [hs]
+    rcases writeMsg_cases c q m a with ⟨hd, _⟩ | hw | hw | hw
+    · exact absurd (by simpa using (dispatch_trySynth c q m hd).2.2.2.2.2.2.2 h0 r hr h6) (by simp [hex])
+    · rw [hw]; exact ⟨rfl, by simpa [passReply] using hr⟩
+    · -- the local work-limit failure needs a SERVFAIL downstream
+      exfalso
+      have : dispatch c q m = .workFail := by
+        cases hd : dispatch c q m with
+        | workFail => rfl
+        | passNative s => cases s <;> simp [writeMsg, hd, passReply] at hw
+        | trySynth =>
+          exact absurd (by simpa using (dispatch_trySynth c q m hd).2.2.2.2.2.2.2 h0 r hr h6) (by simp [hex])
+        | _ => simp [writeMsg, hd, passReply] at hw
+      unfold dispatch at this
+      repeat' split at this
+      all_goals (first | (simp at this; done) | skip)
+      all_goals simp_all
+    · rw [hw]
+      refine ⟨rfl, ?_⟩
+      simp only [filterUpstreamAAAA]
+      exact List.mem_filter.mpr ⟨hr, by simp [h6, hex]⟩
+
+-- exclude_aaaa_networks = [] and a dual-stacked name: the native AAAA goes out untouched, no A lookup
+example :
+    let c : Cfg := { prefixes := [⟨⟨wkpIP, 96, true⟩, true⟩], exA := defaultExcludeAv4, exAAAA := [] }
+    let q : Query := { client := [203, 0, 113, 5], internal := false, rd := true, cd := false, qclass := 1,
+                       qtype := 28, qname := "host.example.net.".toList, workExhausted := false }
+    let m : Down := { rcode := 0, ad := true, tc := false, opt := true, hasQ := true, edes := [], mark := .none,
+                      ans := [{ kind := '6', ttl := 60, owner := "0", ip := [0x20, 1, 0xd, 0xb8, 0, 0, 0, 0, 0, 0, 0, 0, 0, 0, 0, 1] }],
+                      soas := [] }
+    let a : AResp := { err := .none, rcode := 0, ans := [{ kind := '4', ttl := 60, owner := "0", ip := [8, 8, 8, 8] }] }
+    (serve c q (some m) a).kind = .pass ∧ (serve c q (some m) a).aq = 0 ∧ (serve c q (some m) a).ad = true := by decide
 
 /-! ## never AD -/
 
